@@ -17,7 +17,7 @@ from .astutil import FUNC_TYPES, attr_chain, dotted, norm
 class EffectDomain(DefaultDomain):
     track_lists = True
 
-    def __init__(self, classes, attrs=None, track=None, results=None, raises=None, consts=True, inline=True, log_cap=12, lacks=(), oracle=None, ctors=()):
+    def __init__(self, classes, attrs=None, track=None, results=None, raises=None, consts=True, inline=True, log_cap=12, lacks=(), oracle=None, ctors=(), track_stores=()):
         self.classes = classes
         self.attrs = dict(attrs or {})
         self.track = track or (lambda d: False)
@@ -29,6 +29,7 @@ class EffectDomain(DefaultDomain):
         self.lacks = set(lacks)             # {(object id, attribute)} a wrapped object does not have
         self.oracle = oracle               # (name, pos, kw) -> [("val", v) | ("exc", e)] | None: behaviour of a wrapped object's method
         self.ctors = set(ctors)             # callables whose result is the symbolic object ("new", name, args, kwargs)
+        self.track_stores = set(track_stores)  # "self.<attr>" keys whose assignments are logged as ("store:<key>", (value,), (), "ok")
 
     # -- values -------------------------------------------------------------------------
     def constant(self, node):
@@ -76,6 +77,12 @@ class EffectDomain(DefaultDomain):
                 if isinstance(v, tuple) and v[:1] == ("wobj",):
                     a = self.attrs.get(f"{v[1]}.{chain[-1]}")
                     return a if a is not None else ("bound", v[1], chain[-1])
+        return None
+
+    def store_attr(self, key, value, st, fr):
+        if key in self.track_stores:
+            log = st.get("ev.calls", ())
+            return st.set(key, value).set("ev.calls", log + (("store:" + key, (value,), (), "ok"),))
         return None
 
     # -- symbolic wrapped objects -----------------------------------------------------------
@@ -189,6 +196,18 @@ class EffectDomain(DefaultDomain):
                     out.append(val(("tuple",) + (tuple(reversed(els)) if d == "reversed" else tuple(els)), r.state))
                 else:
                     out.append(val(TOP, r.state))
+            return out
+        if isinstance(call.func, ast.Subscript):
+            # table[key](args): a dispatch through a table of callables
+            out = []
+            exprs = [call.func.slice] + [a.value if isinstance(a, ast.Starred) else a for a in call.args] + [k.value for k in call.keywords]
+            for r in interp.eval_list(exprs, st, fr):
+                if r.kind == "exc":
+                    out.append(r)
+                    continue
+                log = r.state.get("ev.calls", ())
+                entry = ("dispatch:" + (dotted(call.func.value) or "?"), (r.value[0],) + tuple(r.value[1: 1 + len(call.args)]), (), "ok")
+                out.append(val(TOP, r.state.set("ev.calls", log + (entry,))))
             return out
         if isinstance(call.func, ast.Call):
             out = []
